@@ -17,10 +17,63 @@ type State struct {
 	heap  map[string]*Term
 	wm    *Term
 	guard *Term
+	hv    *hvNode // havoc events in this state's history that cover heaps not yet materialised in `heap`
+}
+
+// hvNode records a "forget" event (unknown call, summarised call, loop containing one) so that heap
+// families touched for the first time afterwards do not appear unchanged.
+type hvNode struct {
+	id    int
+	all   bool
+	set   map[string]bool
+	wm    *Term
+	prev  *hvNode
+	merge []hvEdge
+}
+
+type hvEdge struct {
+	g  *Term
+	hv *hvNode
+}
+
+var hvSeq int
+
+func newHV(all bool, set map[string]bool, wm *Term, prev *hvNode) *hvNode {
+	hvSeq++
+	return &hvNode{id: hvSeq, all: all, set: set, wm: wm, prev: prev}
+}
+
+// heapDefault is the value of a heap family that has not been materialised in a state yet.
+func (ex *Exec) heapDefault(hv *hvNode, name string, sort Sort) *Term {
+	for hv != nil {
+		if hv.merge != nil {
+			var cur *Term
+			for i := len(hv.merge) - 1; i >= 0; i-- {
+				d := ex.heapDefault(hv.merge[i].hv, name, sort)
+				if cur == nil {
+					cur = d
+				} else {
+					cur = Ite(hv.merge[i].g, d, cur)
+				}
+			}
+			return cur
+		}
+		if hv.all || hv.set[name] {
+			symName := fmt.Sprintf("%s@hv%d", name, hv.id)
+			_, known := TS.decls[symName]
+			t := Sym(symName, sort)
+			if !known {
+				ex.heapFacts(name, t, hv.wm)
+			}
+			return t
+		}
+		hv = hv.prev
+	}
+	return Sym(name+"@0", sort)
 }
 
 func (s *State) clone() *State {
-	n := &State{cells: make(map[*Cell]Val, len(s.cells)), heap: make(map[string]*Term, len(s.heap)), wm: s.wm, guard: s.guard}
+	n := &State{cells: make(map[*Cell]Val, len(s.cells)), heap: make(map[string]*Term, len(s.heap)), wm: s.wm, guard: s.guard, hv: s.hv}
 	for k, v := range s.cells {
 		n.cells[k] = v
 	}
@@ -75,12 +128,15 @@ type Exec struct {
 	pendingEnv0 *SpecEnv
 	callCells   map[string]*Cell // ghost counters: calls("pattern")
 	ifaceVals   map[*Term]Val    // interface id -> boxed value (Go side)
+	pendingSummaries []*wset // write sets of summarised callees: heaps first touched later must still be havocked
 	havocEpoch  int
 }
 
 type writeLog struct {
 	cells map[*Cell]bool
 	heaps map[string]*heapW
+	hvAll bool
+	hvSet map[string]bool
 }
 
 type heapW struct {
@@ -107,6 +163,15 @@ func (wl *writeLog) logHeap(name string, idx *Term) {
 }
 
 func (wl *writeLog) absorb(o *writeLog) {
+	if o.hvAll {
+		wl.hvAll = true
+	}
+	for n := range o.hvSet {
+		if wl.hvSet == nil {
+			wl.hvSet = map[string]bool{}
+		}
+		wl.hvSet[n] = true
+	}
 	for c := range o.cells {
 		wl.cells[c] = true
 	}
@@ -205,15 +270,16 @@ func (ex *Exec) heapGet(st *State, name string, sort Sort) *Term {
 	}
 	_, known := ex.heapSrt[name]
 	ex.heapSrt[name] = sort
-	t := Sym(name+"@0", sort)
+	t0 := Sym(name+"@0", sort)
 	if !known {
-		ex.heapFacts(name, t, Sym("alloc0", SInt))
+		ex.heapFacts(name, t0, Sym("alloc0", SInt))
 	}
 	if e := ex.entry; e != nil && e != st {
 		if _, ok := e.heap[name]; !ok {
-			e.heap[name] = t
+			e.heap[name] = t0
 		}
 	}
+	t := ex.heapDefault(st.hv, name, sort)
 	st.heap[name] = t
 	return t
 }
@@ -278,6 +344,9 @@ func leafKind(l Leaf) string {
 	return ""
 }
 
+// heapSortReg: sort of every heap family whose name has been generated.
+var heapSortReg = map[string]Sort{}
+
 func registerHeap(name string, t types.Type, path string) {
 	if _, ok := heapLeafKind[name]; ok {
 		return
@@ -286,6 +355,11 @@ func registerHeap(name string, t types.Type, path string) {
 	for _, l := range Layout(t) {
 		if l.Path == path {
 			heapLeafKind[name] = leafKind(l)
+			if strings.HasPrefix(name, "E_") {
+				heapSortReg[name] = ArrSort(SInt, ArrSort(SInt, l.Sort))
+			} else {
+				heapSortReg[name] = ArrSort(SInt, l.Sort)
+			}
 			return
 		}
 	}
@@ -427,12 +501,17 @@ func mapOf(t types.Type) *mapHeaps {
 	return &mapHeaps{m: m, key: mapKeyOf(t), ks: mapKeySort(m), vals: Layout(m.Elem())}
 }
 
-func (mh *mapHeaps) domName() string { return "MD_" + mh.key }
+func (mh *mapHeaps) domName() string {
+	n := "MD_" + mh.key
+	heapSortReg[n] = mh.domSort()
+	return n
+}
 func (mh *mapHeaps) lenName() string {
 	n := "ML_" + mh.key
 	if _, ok := heapLeafKind[n]; !ok {
 		heapLeafKind[n] = "nat"
 	}
+	heapSortReg[n] = ArrSort(SInt, SInt)
 	return n
 }
 func (mh *mapHeaps) valName(l Leaf) string {
@@ -440,6 +519,7 @@ func (mh *mapHeaps) valName(l Leaf) string {
 	if _, ok := heapLeafKind[n]; !ok {
 		heapLeafKind[n] = leafKind(l)
 	}
+	heapSortReg[n] = mh.valSort(l)
 	return n
 }
 func (mh *mapHeaps) domSort() Sort        { return ArrSort(SInt, ArrSort(mh.ks, SBool)) }
@@ -730,10 +810,11 @@ type retPoint struct {
 }
 
 type rangeIter struct {
-	mt   types.Type
-	m    *Term
-	seen *Cell
-	str  bool
+	mt    types.Type
+	m     *Term
+	seen  *Cell
+	count *Cell
+	str   bool
 }
 
 func (ex *Exec) newCell(name string, t types.Type, pos token.Pos) *Cell {
@@ -869,7 +950,7 @@ func (ex *Exec) merge(in []*State) *State {
 		for i := len(in) - 1; i >= 0; i-- {
 			t, ok := in[i].heap[n]
 			if !ok {
-				t = Sym(n+"@0", ex.heapSrt[n])
+				t = ex.heapDefault(in[i].hv, n, ex.heapSrt[n])
 			}
 			if cur == nil {
 				cur = t
@@ -913,6 +994,22 @@ func (ex *Exec) merge(in []*State) *State {
 		}
 	}
 	out.wm = wm
+	same := true
+	for _, s := range in {
+		if s.hv != in[0].hv {
+			same = false
+		}
+	}
+	if same {
+		out.hv = in[0].hv
+	} else {
+		hvSeq++
+		n := &hvNode{id: hvSeq}
+		for _, s := range in {
+			n.merge = append(n.merge, hvEdge{s.guard, s.hv})
+		}
+		out.hv = n
+	}
 	return out
 }
 
@@ -1136,6 +1233,9 @@ func (ex *Exec) havocFor(st *State, wl *writeLog) *State {
 		}
 		ns.heap[n] = Fresh(n, srt)
 		ex.heapFacts(n, ns.heap[n], ns.wm)
+	}
+	if wl.hvAll || len(wl.hvSet) > 0 {
+		ns.hv = newHV(wl.hvAll, wl.hvSet, ns.wm, ns.hv)
 	}
 	return ns
 }
